@@ -295,7 +295,11 @@ def apply_op(geo, op):
     elif k == 'translate':
         geo.translate(np.array(op[1]))
     elif k == 'copy_layers_from':
-        other = mg.mulgrid().rectangular([10.0], [10.0], op[1], origin=[0.0, 0.0, op[2] + geo.layerlist[0].bottom],
+        # another layering of the same depth range: same top, same total depth, different subdivision (a layer structure
+        # that leaves column surfaces above its top or below its bottom is not a sensible request)
+        depth = geo.layerlist[0].bottom - geo.layerlist[-1].bottom
+        th = [x * depth / sum(op[1]) for x in op[1]]
+        other = mg.mulgrid().rectangular([10.0], [10.0], th, origin=[0.0, 0.0, geo.layerlist[0].bottom],
                                          convention=geo.convention)       # layer names must honour the same convention
         geo.copy_layers_from(other)
     elif k == 'set_convention':
